@@ -7,14 +7,14 @@ EXTENDS Scene, IOUtils, TLCExt
 
 Traces == JsonDeserialize(IOEnv.TRACE_FILE)
 VARIABLES tid, l
-tvars == <<cfg, cache, hist, tid, l>>
+tvars == <<cfg, filled, at, hist, tid, l>>
 Ev == Traces[tid][l]
 Rng(sq) == {sq[i] : i \in 1..Len(sq)}
 Step == l <= Len(Traces[tid]) /\ l' = l + 1 /\ UNCHANGED tid
 
 TraceInit == /\ tid \in 1..Len(Traces) /\ l = 1
-             /\ cfg = AllOnes /\ cache = Fresh(cfg)
-             /\ hist = <<[op |-> "init", observed |-> FALSE]>>
+             /\ cfg = AllOnes /\ filled = FreshFilled /\ at = AtFor(filled, cfg)
+             /\ hist = <<[E0 EXCEPT !.op = "init"]>>
 TSet == Step /\ Ev.op = "set" /\ Ev.p \in Params /\ Ev.v \in Values(Ev.p)
         /\ Ev.via \in Vias(Ev.p) /\ Set(Ev.p, Ev.v, Ev.via)
         /\ (IsNoOp(Ev.p, Ev.v) \/ Required(Ev.p, cfg') \subseteq Rng(Ev.ran))
